@@ -519,8 +519,8 @@ func c16ReadFaults(ctx *evid.Ctx, scratch string) int64 {
 			ctx.Violation("C16:fault:unreadable-without-error", fmt.Sprintf("input %s cannot be read but ExtractSyscalls returned nil error (%v syscalls)", map[bool]string{true: "is a directory", false: "does not exist"}[p == scratch], out["n"]), map[string]any{"directory": p == scratch})
 		}
 	}
-	if _, err := exec.LookPath("strace"); err != nil {
-		ctx.Capped("strace not available: read faults not injected")
+	if !straceWorks() {
+		ctx.Capped("strace cannot trace here: read faults not injected")
 		return runs
 	}
 	// listings of increasing size: number of read calls grows with the size (4096-byte buffered reads)
